@@ -584,6 +584,13 @@ class Dendrogram(object):
         if min_npix == 0:
             min_npix = self.params["min_npix"]
 
+        # A numpy scalar narrower than a double (e.g. np.float32(0.7)) would
+        # be compared with the recorded value in its own precision
+        if isinstance(min_delta, np.floating):
+            min_delta = float(min_delta)
+        if isinstance(min_npix, np.floating):
+            min_npix = float(min_npix)
+
         # Check if params are too restrictive.
         if min_delta < self.params["min_delta"]:
             warnings.warn("New min_delta (%s) is less than the current min_delta \
